@@ -363,7 +363,7 @@ Definition hex_input_ptr_line (k : N) : iospec :=
   fun vs inb =>
     if negb (len vs =? k + 1) then None else
     match line_of inb with
-    | None => Some (IoEof [])
+    | None => if k <? len inb then None else Some (IoEof [])      (* more unterminated bytes than cells: outside the spec *)
     | Some (ln, _) => if k <? len ln then None
                       else Some (IoDone (overwrite ln (firstn (N.to_nat k) vs) ++ [len ln]) 0 [] (8 * (len ln + 1)) [])
     end.
@@ -430,6 +430,30 @@ Definition echo_hex_digits (n : N) : iospec :=
                          | r => r
                          end
                 | _ => None end.
+
+(* ---- the SAME code instance executed twice ----
+   The harness sends the fall-through exit back to the block entry once (flag b<k>_rf), so the second pass starts from
+   whatever the first one left in the macro's own local cells (sign / zero / printed flags, digit buffers, carries).
+   The first nv variables are the macro's; with mix = 1 the harness xors the extra variable into variable 0 between the
+   passes (printers: a second, different value).  The second pass reads the input where the first one stopped (whole
+   bytes).  A first pass that ends in EOF or leaves through a label exit is the result. *)
+Definition io_twice (nv mix : N) (S : iospec) : iospec :=
+  fun vs inb =>
+    let a := firstn (N.to_nat nv) vs in
+    let ex := skipn (N.to_nat nv) vs in
+    match S a inb with
+    | Some (IoDone v1 x1 o1 u1 c1) =>
+        if negb (x1 =? 0) then Some (IoDone (v1 ++ ex) x1 o1 u1 c1) else
+        if negb (u1 mod 8 =? 0) then None else
+        let v1' := if mix =? 0 then v1
+                   else match v1, ex with x :: r, e :: _ => N.lxor x e :: r | _, _ => v1 end in
+        match S v1' (skipn (N.to_nat (u1 / 8)) inb) with
+        | Some (IoDone v2 x2 o2 u2 c2) => Some (IoDone (v2 ++ ex) x2 (o1 ++ o2) (u1 + u2) (c1 ++ c2))
+        | Some (IoEof o2) => Some (IoEof (o1 ++ o2))
+        | None => None
+        end
+    | r => r
+    end.
 
 (* ---- known-defect predicates (each one is reported and listed; see the `_refuted` examples generated by ./check C09) ---- *)
 (* F24: bit.input n stores the first byte read as the most significant one: differs from the documented little-endian
